@@ -12,6 +12,7 @@ import (
 	"os"
 	"path/filepath"
 	"runtime/debug"
+	"strings"
 
 	"mmverify/kit"
 	"mmverify/rules"
@@ -140,6 +141,9 @@ func runCheck(c *rules.Check, tier, vd, outDir string, after func(r *kit.Report)
 			}
 		}
 	}
+	if tier == "thorough" && after == nil {
+		runSelfTests(c, r)
+	}
 	if after != nil {
 		after(r)
 	}
@@ -265,4 +269,96 @@ func cmdManifest() int {
 	}
 	fmt.Printf("MANIFEST.json: %d checks, %d not_applicable\n", len(checks), len(na))
 	return 0
+}
+
+// runSelfTests applies each source variant through the overlay and checks that the rule set
+// reacts as declared. A failing self-test is a checker error (exit 2), never a VIOLATION.
+func runSelfTests(c *rules.Check, r *kit.Report) {
+	applied, skipped, failed := 0, 0, 0
+	for _, st := range c.SelfTests {
+		overlay := map[string][]byte{}
+		ok := true
+		for _, e := range st.Edits {
+			path := filepath.Join(kit.RepoDir, e.File)
+			src, have := overlay[path]
+			if !have {
+				b, err := os.ReadFile(path)
+				if err != nil {
+					ok = false
+					break
+				}
+				src = b
+			}
+			if strings.Count(string(src), e.Old) != 1 {
+				ok = false
+				break
+			}
+			overlay[path] = []byte(strings.Replace(string(src), e.Old, e.New, 1))
+		}
+		if !ok {
+			skipped++
+			r.Note("selftest %q skipped: substitution no longer applies to the current source", st.Name)
+			continue
+		}
+		p2, err := kit.Load(kit.LoadConfig{Patterns: c.Patterns, Overlay: overlay})
+		if err != nil {
+			skipped++
+			r.Note("selftest %q skipped: variant does not type-check: %v", st.Name, firstLine(err.Error()))
+			continue
+		}
+		applied++
+		r2 := kit.NewReport(c.ID, "selftest")
+		func() {
+			defer func() {
+				if e := recover(); e != nil {
+					r2.Floor("panic: %v", e)
+				}
+			}()
+			c.Run(p2, r2)
+		}()
+		hit := false
+		var viol []string
+		for _, o := range r2.Obs {
+			if o.Status == kit.Violated {
+				viol = append(viol, o.Rule+" "+o.Key)
+				if st.ExpectRule != "" && o.Rule == st.ExpectRule && strings.Contains(o.Key, st.ExpectKey) {
+					hit = true
+				}
+			}
+		}
+		switch {
+		case st.ExpectRule != "" && !hit:
+			failed++
+			r.Floor("selftest mutant %q not detected by %s (violations seen: %v)", st.Name, st.ExpectRule, viol)
+		case st.ExpectRule == "" && (len(viol) > 0 || len(r2.Floors) > 0) && !sameViolations(viol, r):
+			failed++
+			r.Floor("selftest rewrite %q is behaviour-preserving but alarmed: %v %v", st.Name, viol, r2.Floors)
+		}
+	}
+	r.Count("selftests_applied", applied)
+	r.Count("selftests_skipped", skipped)
+	r.Count("selftests_failed", failed)
+}
+
+// sameViolations: a rewrite may only show the violations the unmodified tree shows.
+func sameViolations(viol []string, base *kit.Report) bool {
+	have := map[string]bool{}
+	for _, o := range base.Obs {
+		if o.Status == kit.Violated {
+			have[o.Rule+" "+o.Key] = true
+		}
+	}
+	for _, v := range viol {
+		if !have[v] {
+			return false
+		}
+	}
+	return true
+}
+
+func firstLine(s string) string {
+	if i := strings.Index(s, "\n"); i > 0 {
+		return s[:i]
+	}
+	return s
 }
